@@ -741,6 +741,11 @@ def main(argv=None):
                    'non-trivial = the cut falls strictly inside a vote write or between vote and finish; '
                    'distinct by (history hash, event index, byte offset)',
               assumptions=['crash image = byte-prefix of the ISSUED raw operations (no reordering by the OS)',
+                           'besides crash images every history is also read LIVE through the running storage (load through '
+                           'the read-file pool while a transaction is voted, after aborts and commits; one loadSerial of a '
+                           'back-pointer revision from a second thread while a vote is between its writes): an unfinished '
+                           'or aborted transaction must be absent for running readers too, and a reader must not disturb '
+                           'the vote; general reader/writer interleavings are C02/C03',
                            'reference states are real FileStorages opened on byte-prefixes of the uncrashed '
                            'file, whose content is checked by an independent pure-Python parser against the '
                            'operations issued',
